@@ -257,6 +257,9 @@ class Population:
     def canon(self, w):
         return self.cn(w.model, [w.agents[k] for k in self.keys])
 
+    def refstate(self, w):
+        return tuple(w.order)
+
     def outcome(self, w):
         return w.last
 
